@@ -3,7 +3,6 @@ package impl
 import (
 	"errors"
 	"fmt"
-	"math"
 	"regexp"
 	"strconv"
 	"strings"
@@ -656,10 +655,6 @@ func convertDuration(input string, outputFormat string) (string, error) {
 		convertedValue = duration.Minutes()
 	case "seconds":
 		convertedValue = duration.Seconds()
-	}
-
-	if outputFormat == "years" {
-		convertedValue = math.Ceil(convertedValue / 12.0)
 	}
 
 	return fmt.Sprintf("%.0f %s", convertedValue, outputFormat), nil
